@@ -521,6 +521,10 @@ class Polyline:
                 else:
                     roll = 0
             working_v = np.roll(self.v, roll, axis=0)
+            # Repeat the first vertex at the end, so the edge which closes the
+            # polyline is considered, too. Otherwise, when only one vertex is
+            # not in front of the plane, the second intersection is missed.
+            working_v = np.vstack([working_v, working_v[:1]])
         else:
             working_v = self.v
 
